@@ -140,10 +140,17 @@ def predicate(c):
         R2 = rng.standard_normal(shape) + 1j * rng.standard_normal(shape)
         R3 = R1.copy()
         R3[:, c["other_mode"], :] += 1.0 + 2.0j * rng.standard_normal((nr, nz))
-        fields = [R1, R2, R1 + c["alpha"] * R2, R3]
+        # slices that are exactly real or exactly zero, solved by the same solver object after complex ones: nothing of
+        # an earlier slice (work arrays, boundary coefficients) may leak into them
+        R4 = rng.standard_normal(shape) + 1j * rng.standard_normal(shape)
+        sel = rng.integers(0, 3, size=(nq, nz))
+        R4.imag[:, sel == 1] = 0.0
+        R4[:, sel == 2] = 0.0
+        fields = [R1, R2, R1 + c["alpha"] * R2, R3, R4]
     else:
         rf = fem.make_func(c["rhs"], a, b)
-        fields = [lambda x, rf=rf: rf(x)]
+        Rc = rng.standard_normal(shape) + 1j * rng.standard_normal(shape)
+        fields = [lambda x, rf=rf: rf(x), Rc, lambda x, rf=rf: rf(x)]
     # ---- reference per (mode, z) ------------------------------------------------------------------
     worst = 0.0
     ref0 = np.empty(shape, dtype=complex)
@@ -168,6 +175,25 @@ def predicate(c):
         raise Violation("C14:galerkin", "mode index %d (m=%g, %s/%s), z %d: phi(r_%d) = %r, dense Galerkin reference %r (|diff| %.3e, tol %.3e, cond %.1e)"
                         % (idx[1], mv[idx[1]], "N" if mv[idx[1]] in c["lN"] else "D", "N" if mv[idx[1]] in c["uN"] else "D",
                            idx[2], idx[0], sols[0][idx], ref0[idx], err[idx], tol, worst))
+    if c["kind"] == "discrete":
+        for I in range(nq):
+            lNm, uNm = (mv[I] in c["lN"]), (mv[I] in c["uN"])
+            for j in range(nz):
+                want, cond = dense.solve_discrete(fields[4][:, I, j], r, mv[I] ** 2, lNm, uNm)
+                e4 = np.abs(sols[4][:, I, j] - want)
+                if not (e4 <= tol).all():
+                    k = int(np.argmax(e4))
+                    what = ["complex", "exactly real", "exactly zero"][int(sel[I, j])]
+                    raise Violation("C14:galerkin:mixed-slices", "right-hand side with %s slice at mode index %d (m=%g), z %d, solved "
+                                    "after complex slices by the same solver: phi(r_%d) = %r, dense Galerkin reference %r "
+                                    "(|diff| %.3e, tol %.3e)" % (what, I, mv[I], j, k, sols[4][k, I, j], want[k], e4[k], tol))
+    else:
+        e2 = np.abs(sols[2] - ref0)
+        if not (e2 <= tol).all():
+            idx = tuple(int(x) for x in np.argwhere(~(e2 <= tol))[0])
+            raise Violation("C14:galerkin:function-after-discrete", "function right-hand side solved after a complex discrete one by the "
+                            "same solver: mode index %d, z %d: phi(r_%d) = %r, reference %r (|diff| %.3e, tol %.3e)"
+                            % (idx[1], idx[2], idx[0], sols[2][idx], ref0[idx], e2[idx], tol))
     # ---- Dirichlet ends exactly zero --------------------------------------------------------------
     for I in range(nq):
         if mv[I] not in c["lN"] and np.any(sols[0][0, I, :] != 0):
